@@ -87,6 +87,11 @@ func (m *mergeFields) traverseNode(node resolve.Node) {
 			for j := i + 1; j < len(n.Fields); j++ {
 				if m.fieldsCanMerge(n.Fields[i], n.Fields[j]) {
 					m.mergeValues(n.Fields[i], n.Fields[j])
+					// the merged object is reachable whenever one of the two was
+					// (the children keep their own, propagated, parent type conditions)
+					if merged, exact := m.eitherParentOnTypeNames(n.Fields[i].ParentOnTypeNames, n.Fields[j].ParentOnTypeNames); exact {
+						n.Fields[i].ParentOnTypeNames = merged
+					}
 					n.Fields = append(n.Fields[:j], n.Fields[j+1:]...)
 					j--
 				}
@@ -134,6 +139,21 @@ func (m *mergeFields) canMergeScalars(left, right *resolve.Field) bool {
 }
 
 func (m *mergeFields) mergeScalars(left, right *resolve.Field) {
+	// The merged field has to be rendered whenever left OR right would have been rendered.
+	// The type conditions of one field are a conjunction (own type, parent types per depth layer);
+	// when the disjunction of both can be expressed in that form, use it. Treat the own type
+	// condition as depth layer 0.
+	if merged, exact := m.eitherParentOnTypeNames(m.allTypeConditions(left), m.allTypeConditions(right)); exact {
+		left.OnTypeNames, left.ParentOnTypeNames = nil, nil
+		for i := range merged {
+			if merged[i].Depth == 0 {
+				left.OnTypeNames = merged[i].Names
+				continue
+			}
+			left.ParentOnTypeNames = append(left.ParentOnTypeNames, merged[i])
+		}
+		return
+	}
 	// when left has no type conditions, it will overwrite right
 	if left.OnTypeNames == nil && left.ParentOnTypeNames == nil {
 		return
@@ -167,6 +187,94 @@ WithNext:
 		// if we reach this point, we have a new depth layer and just append it
 		left.ParentOnTypeNames = append(left.ParentOnTypeNames, right.ParentOnTypeNames[i])
 	}
+}
+
+// allTypeConditions returns the parent type conditions of the field plus its own type condition as depth layer 0.
+func (m *mergeFields) allTypeConditions(field *resolve.Field) []resolve.ParentOnTypeNames {
+	out := make([]resolve.ParentOnTypeNames, 0, len(field.ParentOnTypeNames)+1)
+	if field.OnTypeNames != nil {
+		out = append(out, resolve.ParentOnTypeNames{Depth: 0, Names: field.OnTypeNames})
+	}
+	return append(out, field.ParentOnTypeNames...)
+}
+
+// eitherParentOnTypeNames returns type conditions that hold exactly when left or right hold.
+// Each argument is a conjunction over depth layers (resolvable.go needs one matching name per layer,
+// no layers = always reachable), so the disjunction is only expressible when
+//   - one side implies the other (e.g. one side has no conditions at all, or the same conditions
+//     plus additional layers): the weaker side is the result
+//   - both sides have the same layers and differ in one of them: the names of that layer are merged
+//
+// Otherwise exact is false.
+func (m *mergeFields) eitherParentOnTypeNames(left, right []resolve.ParentOnTypeNames) (merged []resolve.ParentOnTypeNames, exact bool) {
+	if m.typeConditionsImply(right, left) {
+		return left, true
+	}
+	if m.typeConditionsImply(left, right) {
+		return right, true
+	}
+	if len(left) != len(right) {
+		return nil, false
+	}
+	different := -1
+	merged = make([]resolve.ParentOnTypeNames, len(left))
+	for i := range left {
+		merged[i] = left[i]
+		found := false
+		for j := range right {
+			if left[i].Depth != right[j].Depth {
+				continue
+			}
+			if found {
+				// more than one condition per depth layer
+				return nil, false
+			}
+			found = true
+			if m.sameOnTypeNames(left[i].Names, right[j].Names) {
+				continue
+			}
+			if different != -1 {
+				return nil, false
+			}
+			different = i
+			names := make([][]byte, 0, len(left[i].Names)+len(right[j].Names))
+			names = append(append(names, left[i].Names...), right[j].Names...)
+			merged[i].Names = m.deduplicateOnTypeNames(names)
+		}
+		if !found {
+			return nil, false
+		}
+	}
+	return merged, true
+}
+
+// typeConditionsImply reports whether a field that is reachable under the conditions a is always
+// reachable under the conditions b: every depth layer of b is matched by a layer of a at the same
+// depth that allows no other names.
+func (m *mergeFields) typeConditionsImply(a, b []resolve.ParentOnTypeNames) bool {
+WithNext:
+	for i := range b {
+		for j := range a {
+			if a[j].Depth == b[i].Depth && m.namesSubset(a[j].Names, b[i].Names) {
+				continue WithNext
+			}
+		}
+		return false
+	}
+	return true
+}
+
+func (m *mergeFields) namesSubset(sub, super [][]byte) bool {
+WithNext:
+	for i := range sub {
+		for j := range super {
+			if bytes.Equal(sub[i], super[j]) {
+				continue WithNext
+			}
+		}
+		return false
+	}
+	return true
 }
 
 func (m *mergeFields) fieldsCanMerge(left *resolve.Field, right *resolve.Field) bool {
